@@ -133,9 +133,9 @@ F_FORMS = {
     'cs_f': (dict(cs_f=lambda b, i: (b + 1) << i), lambda i: [2 ** i]),
     'cs_f_tuple': (dict(cs_f=lambda b, i: (i + b, (b + 1) << i)), lambda i: [i, 2 ** i]),
     'cs_f_list': (dict(cs_f=lambda b, i: [5 * (i + b)]), lambda i: [5 * i]),
-    'f+cs_f': (dict(f=lambda i: [2 ** i], cs_f=lambda b, i: [(b + 1) << i]), lambda i: [2 ** i]),
+    # (giving BOTH f and cs_f is not a documented use: 'function cs_f can be set instead of specifying function f')
 }
-POW_FORMS = ('f_tuple', 'cs_f', 'cs_f_tuple', 'f+cs_f')      # f(-1) = 2^-1 is no integer: not combined with e=-1
+POW_FORMS = ('f_tuple', 'cs_f', 'cs_f_tuple')      # f(-1) = 2^-1 is no integer: not combined with e=-1
 A_KINDS = ('0', '1', 's0', 's1')
 
 
